@@ -283,13 +283,13 @@ def gthread_second(cl: int, n1: int, n2: int, nwait: int) -> bool:
 
 def app_error(kind: int, stage: int, v11: bool, wk: int) -> bool:
     """
-    pre: 0 <= kind <= 2 and 0 <= stage <= 2 and 0 <= wk <= 2
+    pre: 0 <= kind <= 2 and 0 <= stage <= 3 and 0 <= wk <= 2
     post: __return__
     """
     # an application that fails part-way is not "well-behaved", but what the server puts on the wire must still be at most
     # ONE response: once a response head has gone out nothing but (part of) its body may follow before the close
     import errno as _errno
-    kind, stage, wk = pick(kind, 0, 2), pick(stage, 0, 2), pick(wk, 0, 2)
+    kind, stage, wk = pick(kind, 0, 2), pick(stage, 0, 3), pick(wk, 0, 2)
     exc = [OSError(_errno.ENOENT, "no such file"), ValueError("boom"), OSError(_errno.EPIPE, "pipe")][kind]
 
     def app(environ, start_response):
@@ -300,7 +300,7 @@ def app_error(kind: int, stage: int, v11: bool, wk: int) -> bool:
             raise exc
 
         def gen():
-            yield b"ab"
+            yield b"ab" if stage == 2 else b""          # stage 3: the head is flushed by an empty piece, no body byte yet
             raise exc
         return gen()
     kindname = ["sync", "gthread", "async"][wk]
@@ -320,6 +320,8 @@ def app_error(kind: int, stage: int, v11: bool, wk: int) -> bool:
     if stage == 2:
         # the 200 head went out with the first piece; only that may be on the wire
         return raw.startswith(b"HTTP/1.") and raw.endswith(b"ab") and b" 200 " in raw[:16]
+    if stage == 3 and raw:
+        return raw.startswith(b"HTTP/1.") and raw.count(b"\r\n\r\n") == 1 and raw.endswith(b"\r\n\r\n")
     return True
 
 
@@ -408,8 +410,8 @@ OBLIGATIONS = [
                                                       {"kind": "async", "keepalive": 2, "v11": True}],
        expect="refute", timeout=300),
     Ob("C02.app_error", "app_error", timeout=600,
-       bound="application raising OSError(ENOENT) / ValueError / OSError(EPIPE) before start_response, after it, or after the first "
-             "body piece; sync, gthread and async-base workers; HTTP/1.0 and 1.1"),
+       bound="application raising OSError(ENOENT) / ValueError / OSError(EPIPE) before start_response, after it, after an empty first piece, or after "
+             "the first body piece; sync, gthread and async-base workers; HTTP/1.0 and 1.1"),
     Ob("C02.gthread_second", "gthread_second", timeout=600,
        bound="two requests on one kept-alive gthread connection, the second arriving in two segments (with / without an EAGAIN in "
              "between), Content-Length absent / 0..2, two body pieces of 0..2 bytes"),
